@@ -302,6 +302,17 @@ pub fn run(ctx: &mut Ctx) {
                         if expect_ok { "acceptance" } else { "this breach" }, r.error.as_ref().map(|e| coq::variant_name(e))),
                         json!({"kind": "pump", "text": text, "opts": o.json(), "counter": q, "usage": usage}));
                 }
+                // S2b: a breach the pump reports is an error of every single-document entry point too -- also when
+                // it is raised after the first document's end (F58: it was dropped there as "trailing garbage")
+                if !expect_ok && b == Some(q) {
+                    ctx.direct_evaluations += 1;
+                    let mut so = serde_saphyr::Options::default();
+                    so.budget = o.budget.clone();
+                    if crate::rt::from_str_rt(text, &crate::rt::Ty::Any, so).is_ok() {
+                        ctx.fail("breach-dropped", format!("{q}: usage {usage}, limit {limit}: the pump reports the breach, from_str_with_options returns a value on {text:?}"),
+                            json!({"kind": "typed_breach", "text": text, "counter": q, "limit": limit}));
+                    }
+                }
                 if !quick || rng.chance(1, 3) {
                     ctx.case(t, nontrivial_doc, json!({"kind": "pump", "text": text, "opts": o.json(), "counter": q}));
                 }
@@ -513,6 +524,13 @@ fn replay(ctx: &mut Ctx, r: &serde_json::Value) {
                 if !ok {
                     ctx.fail("threshold", "replayed".into(), r.clone());
                 }
+            }
+        }
+        "typed_breach" => {
+            let mut so = serde_saphyr::Options::default();
+            so.budget = Some(with_limit(r["counter"].as_str().unwrap_or(""), r["limit"].as_u64().unwrap_or(0) as usize));
+            if crate::rt::from_str_rt(text, &crate::rt::Ty::Any, so).is_ok() {
+                ctx.fail("breach-dropped", "replayed".into(), r.clone());
             }
         }
         "perdoc" => {
